@@ -134,6 +134,10 @@ REAL_SIZE = [
     "int (*(*(*(*(*(*(*(*)(int))(int))(int))(int))(int))(int))(int))(int)",
     "unsigned long long int const volatile * const * volatile * x",
     "struct s1 (*(*[3])(struct s1 *, union u1 *))[0x10]",
+    # typedefs of array / function types as parameters (Param(t) = Adjust(t)) and other reported corners
+    "int(*)(vec_t)", "int(*)(vec_t p)", "int(*)(const vec_t)", "void(*)(long, mat_t, ...)", "myint (*(*)(vec_t))[3]",
+    "int(*)(int (*)(mat_t), vec_t)", "vec_t *", "mat_t *", "func_t *", "func_t *(*)(void)", "int(*)(func_t)",
+    "int(*)(int, func_t f)", "int(*)(...)", "int(*)(const void)", "int(*)(void volatile)", "int (*(x))", "func_t", "vec_t (*)(void)",
 ]
 
 
